@@ -558,7 +558,7 @@ impl Prop for History {
     fn floors(&self) -> Vec<(&'static str, u64, u64)> {
         match self.0 {
             Which::NoCrash => vec![("searches", 20000, 200000), ("searches with hits", 5000, 50000), ("joined-record hits (two spans from a one-word query)", 50, 500), ("non-ASCII queries", 2000, 20000), ("limit 0", 200, 2000), ("limit 65536", 200, 2000), ("long-text searches", 500, 5000), ("long-text searches with a query over 255 characters", 100, 1000), ("corpus-store searches", 300, 3000)],
-            Which::NoStale => vec![("search after add following an earlier search", 2000, 20000), ("search after clear following an earlier search", 500, 5000), ("search after limit following an earlier search", 500, 5000), ("empty-query search after a mutation following an earlier search", 1000, 10000), ("exhaustive histories", 20000, 200000), ("histories on a crowded store", 2000, 20000), ("search repeating the previous query after a mutation", 2000, 20000)],
+            Which::NoStale => vec![("search after add following an earlier search", 2000, 20000), ("search after clear following an earlier search", 500, 5000), ("search after limit following an earlier search", 500, 5000), ("empty-query search after a mutation following an earlier search", 1000, 10000), ("exhaustive histories", 20000, 200000), ("histories on a crowded store", 2000, 20000), ("histories that clear and refill a crowded store", 2000, 20000), ("search repeating the previous query after a mutation", 2000, 20000)],
             Which::Registry => vec![("observations", 20000, 200000), ("observations with >= 2 live ids holding results", 2000, 20000), ("destroy", 300, 3000), ("searches", 3000, 30000)],
         }
     }
@@ -585,8 +585,25 @@ impl Prop for History {
                     last_q = match ops.last() { Some(Op::Search(q)) => Some(q.clone()), _ => None };
                     cx.count("histories on a crowded store");
                 }
-                for _ in 0..n {
-                    ops.push(random_op(&mut cx.rng, lang, allow_clear, &mut last_q));
+                let refill_at = if cx.tier != Tier::Miri && cx.rng.chance(1, 5) { Some(cx.rng.below(n + 1)) } else { None };
+                for k in 0..=n {
+                    if refill_at == Some(k) {
+                        // clear and refill with more matching records than a small limit's candidate cap:
+                        // per-record state that survives clear() shows in which of them are picked
+                        let words = ["metal", "mettle", "medal", "mailbox", "me", "meter", "melon"];
+                        ops.push(Op::Clear);
+                        for _ in 0..cx.rng.range(11, 45) {
+                            ops.push(Op::Add(format!("{} {}", cx.rng.pick(&words), cx.rng.pick(&words)), cx.rng.below(7)));
+                        }
+                        ops.push(Op::Limit(*cx.rng.pick(&[1, 1, 2, 3])));
+                        let q = cx.rng.pick(&["me", "metal", "m", "met", "mailbox"]).to_string();
+                        last_q = Some(q.clone());
+                        ops.push(Op::Search(q));
+                        cx.count("histories that clear and refill a crowded store");
+                    }
+                    if k < n {
+                        ops.push(random_op(&mut cx.rng, lang, allow_clear, &mut last_q));
+                    }
                 }
                 run_history(cx, lang, &ops, true);
             }
